@@ -98,6 +98,22 @@ func codeCreateChild() []byte {
 	return (&asm{}).push1(0).push1(0).op(opCALLVALUE, opCREATE, opPOP, opSTOP).b
 }
 
+// DELEGATECALL / STATICCALL (no value) and CALLCODE (value = call value) into x, result popped
+func codeDelegate(x common.Address) []byte {
+	return (&asm{}).push1(0).push1(0).push1(0).push1(0).pushAddr(x).op(opGAS, 0xf4, opPOP, opSTOP).b
+}
+func codeStatic(x common.Address) []byte {
+	return (&asm{}).push1(0).push1(0).push1(0).push1(0).pushAddr(x).op(opGAS, 0xfa, opPOP, opSTOP).b
+}
+func codeCallCode(x common.Address) []byte {
+	return (&asm{}).push1(0).push1(0).push1(0).push1(0).op(opCALLVALUE).pushAddr(x).op(opGAS, 0xf2, opPOP, opSTOP).b
+}
+
+// CREATE2 a child with empty init code and salt 1, endowed with the call value
+func codeCreate2Child() []byte {
+	return (&asm{}).push1(1).push1(0).push1(0).op(opCALLVALUE, 0xf5, opPOP, opSTOP).b
+}
+
 // initCode wraps runtime code in a constructor that returns it.
 func initCode(runtime []byte) []byte {
 	// PUSH1 len DUP1 PUSH1 off PUSH1 0 CODECOPY PUSH1 0 RETURN   (12 bytes)
